@@ -12,6 +12,27 @@ CHECKS = {
         note="Trusted: the reference semantics (DESIGN.md Appendix A), serde_yaml's parser, the generator's exclusions for unspecified shapes and open findings (DESIGN.md sections 6, 8).",
         design="5/C02, Appendix A",
     ),
+    "C01": dict(
+        category="exploration",
+        technique="runtime monitoring: crash monitor (panic hook per stage, child-process abort/hang attribution) over load->eval->emit of generated programs and kind-breaking mutants accepted by the checker; Miri stage in the thorough tier",
+        text="Whatever the checker accepts out of G-wt programs, kind-breaking AST mutants, token/byte mutants, corpus programs and nesting families to depth 200 is evaluated and emitted in a worker process; a panic, abort, hang or unlocated error value is attributed to one input. Sampled, bounded depth and size.",
+        note="Trusted: the worker pool's crash attribution; the watchdog only suspects, a hang needs a second, isolated 10x confirmation. Open finding (cross-module instantiation of under-constrained functions) is keyed by signature + trigger shape.",
+        design="5/C01",
+    ),
+    "C03": dict(
+        category="exploration",
+        technique="runtime monitoring: structural invariant walker over every emitted document (re-parsed YAML) of the exploration workload, plus YAML round-trip differential",
+        text="Every document the pipeline emits for generated programs, accepted mutants and corpus programs is re-parsed and walked by an independent validator: $ref closure, path variables vs required path parameters, response-key domain, operationId uniqueness, YAML round trip.",
+        note="Trusted: serde_yaml's parser (YAML 1.2 core schema). Known finding: synthesised operationId collisions.",
+        design="5/C03",
+    ),
+    "C08": dict(
+        category="exploration",
+        technique="runtime monitoring: reference-model monitor (generator's binding table vs definition() of every Variable node after the real resolver ran) + document comparison for shadowing programs + located-error monitor for unbound/duplicate names",
+        text="For shadowing-heavy generated multi-module programs every identifier use's resolved definition is compared by source range with the binder the scoping rules give; the emitted document is compared with the reference (so a run-time lookup that picks a caller's binding shows); unbound and duplicate names must be located errors.",
+        note="Trusted: the generator's binding table; the printer's span table.",
+        design="5/C08",
+    ),
     "C16": dict(
         category="exploration",
         technique="runtime monitoring: reference-model monitor over an exhaustively enumerated input space (all texts up to a length bound, all offsets/positions) through the cfg-guarded conversion hooks",
